@@ -35,6 +35,9 @@ pub enum Cb {
     Accept,
     /// callback returns Err (disk full / EIO); durable state unchanged
     Reject,
+    /// transient storage error: the first invocation in this call returns Err, any further
+    /// invocation in the same call would be accepted (and written)
+    RejectOnce,
     /// process dies inside the callback before the write is durable
     CrashBeforeDurable,
     /// write durable, process dies before sign returns
